@@ -306,6 +306,59 @@ pub fn add_subs(subs: &mut Vec<Sub>, sz: Sz) {
         );
     }
 
+    // --- DWARF 5 line header entry formats: every form code (also forms the line parser does not
+    // list and forms whose encoding is zero bytes wide) with entry counts far beyond the input
+    // size: the header parse must be bounded by the input, whatever the form
+    {
+        let mut forms: Vec<u64> = (0..=0x30u64).collect();
+        forms.extend_from_slice(&[0x1f01, 0x1f02, 0x1f20, 0x1f21, 0x7f, 0x80, 0xffff]);
+        let counts: [u64; 4] = [1 << 20, 1 << 32, 1 << 40, u64::MAX];
+        let nf = forms.len() as u64;
+        subs.push(
+            Sub::new(&sz.tag("line-v5-entry-format-forms"), nf * 4 * 2 * 2, "version 5 line header whose directory (or file) entry format is the single pair (DW_LNCT_path, form) for every form code 0..=0x30, the GNU forms and three unassigned codes, with an entry count of 2^20, 2^32, 2^40 or 2^64-1 and no entry bytes behind it, x byte order: parse, header accessors, rows", move |ctx, i| {
+                let mut m = Mix(i);
+                let big = m.flag();
+                let files = m.flag();
+                let count = counts[m.take(4) as usize];
+                let form = forms[m.0 as usize];
+                let table = |e: &mut Enc, form: u64, count: u64, entry: &[u8]| {
+                    e.u8(1);
+                    e.uleb(1).uleb(form);
+                    e.uleb(count);
+                    e.bytes(entry);
+                };
+                let mut rest = Enc::new(big);
+                rest.u8(1).u8(1).u8(1).u8((-5i8) as u8).u8(14).u8(13);
+                for l in [0u8, 1, 1, 1, 1, 0, 0, 0, 1, 0, 0, 1] {
+                    rest.u8(l);
+                }
+                if files {
+                    table(&mut rest, 0x08, 1, b"/d\0");
+                    table(&mut rest, form, count, b"");
+                } else {
+                    table(&mut rest, form, count, b"");
+                    table(&mut rest, 0x08, 1, b"a\0");
+                }
+                let mut unit = Enc::new(big);
+                unit.u16(5).u8(8).u8(0);
+                unit.u32(rest.buf.len() as u32);
+                unit.bytes(&rest.buf);
+                unit.bytes(&[0, 1, 1]);
+                let mut out = Enc::new(big);
+                out.with_length(false, &unit);
+                let mut ss = SecSet::default();
+                ss.line = out.buf;
+                let cfg = Cfg { big, address_size: 8, format64: false, version: 5, aarch64: false };
+                if ctx.want_sample() {
+                    ctx.sample(format!("form {:#x} count {} in the {} table: {}", form, count, if files { "file" } else { "directory" }, mcx::hex(&ss.line)));
+                }
+                run_case(ctx, &|| format!("v5 line header, {} entry format (path, form {:#x}), count {}", if files { "file" } else { "directory" }, form, count), &ss, 5, cfg, Plan::Slice, 0);
+            })
+            .flavours(sz.fl())
+            .timeout(60),
+        );
+    }
+
     // --- depth / length stressors: one sub per stressor so that a crash or hang is
     // identified by the stressor's name
     {
